@@ -37,6 +37,14 @@ pub const EXCLUDED_FLAGS: [&str; 9] = [
 /// Generates a G-wt program whose reference semantics is defined and unflagged (rejection sampling).
 pub fn gen_wt_case(seed: u64, salt: &str, idx: u64, cfg: &Cfg, st: &mut Stats) -> Option<WtCase> {
     let mut rng = Rng::for_case(seed, salt, idx);
+    // one case in five is call-heavy: many functions of several parameters of unlike kinds
+    let heavy;
+    let cfg = if idx % 5 == 4 {
+        heavy = cfg.clone().call_heavy();
+        &heavy
+    } else {
+        cfg
+    };
     for _try in 0..40 {
         let prog = generate(&mut rng, cfg);
         match expected(&prog) {
